@@ -12,17 +12,34 @@ from . import codec_engine as E
 def run(ctx):
     drv, sess, tally = E.common_setup(ctx, "C03")
     ctx.rule = ("per type: the zero value + N boundary-biased values -> rt on every target (bytes, decoded dump = adj(v), consumed = produced, "
-                "re-serialisation identical); M byte strings -> de on every target; all pairs of targets compared on every request; "
-                "non-trivial = not the empty struct / empty string; distinct by (type, op, input)")
+                "re-serialisation identical); M byte strings -> de on every target; rtreuse pairs (V1 then V2 through the SAME source and "
+                "destination objects: maximal -> zero, maximal -> emptied, random -> emptied, random -> random; Python: every field re-assigned "
+                "through the setters) answered as rt V2; dereuse pairs (A then B into the same object) answered as de B; one array over capacity "
+                "/ one prefix over capacity; Python: array spellings on the way in (incl. non-native byte order, strided, read-only), fragment "
+                "spellings on the way back (incl. the fragments exactly as serialize() returned them); all pairs of targets compared on every "
+                "request; non-trivial = not the empty struct / empty string; distinct by (type, op, input)")
     rng = ctx.rng
     n, k, r = (40, 3, 10) if ctx.quick else (90, 5, 25)
     reqs = E.corpus_requests(sess, "C03")
     for gt in sess.ns.types:
-        for v in E.value_cases(rng, gt, n):
+        for v in E.value_cases(rng, gt, n, nan_payloads=True):
             reqs.append(E.Req(gt, "rt", v))
         for b in E.bytes_cases(rng, gt, k, r):
             reqs.append(E.Req(gt, "de", b))
+        # round trips through REUSED objects (a subscriber that keeps its message object): the second value / string goes
+        # through source and destination objects that still hold the first
+        for v1, v2 in E.reuse_value_pairs(rng, gt, 6 if ctx.quick else 14):
+            reqs.append(E.Req(gt, "rtreuse", (v1, v2), origin="reuse"))
+        for a, b in E.reuse_byte_pairs(rng, gt, 4 if ctx.quick else 10):
+            reqs.append(E.Req(gt, "dereuse", (a, b), origin="reuse"))
+        for v in E.overlong_values(rng, gt, 2 if ctx.quick else 6):
+            reqs.append(E.Req(gt, "rt", v, origin="overlong"))
+        for b in E.overcap_bytes(rng, gt, 2 if ctx.quick else 6):
+            reqs.append(E.Req(gt, "de", b, origin="overcap"))
+        for b in E.nan_wire_bytes(rng, gt, 2 if ctx.quick else 6):
+            reqs.append(E.Req(gt, "de", b, origin="nan-patterns"))
     E.run_requests(ctx, sess, drv, "roundtrip", reqs, tally, cross_target=True)
+    E.record_spellings(ctx, sess)
     E.run_refinement_ties(ctx)
     ctx.sample({"type": reqs[-1].gt.tstr[:200], "request": reqs[-1].target_line()[:200]})
 
